@@ -396,9 +396,10 @@ Section EVAL.
     then notify_link T (g, i) (now_of g w) (upd_node g i (set_link (now_of g w)) w) else w.
 
   (* try_except: the child's exception becomes one tick of the `exception` field; then the pull *)
+  Definition caught (g i : nat) (now : Z) (w : world) : world :=
+    if negb (ok w) then write_err T g i (w_err w) now (set_err 0 w) else w.
   Definition catch (g i : nat) (now : Z) (w : world) : world :=
-    let w2 := if negb (ok w) then write_err T g i (w_err w) now (set_err 0 w) else w in
-    pull T g i (c_child (ncfg_at T g i)) w2.
+    pull T g i (c_child (ncfg_at T g i)) (caught g i now w).
 
   (* single_nested_graph_evaluate / try_except_evaluate_impl *)
   Definition eval_nested (g i : nat) (w : world) : world :=
